@@ -141,7 +141,7 @@ func (w *Webhook) Handle(
 
 	// Create patch if not equal.
 	if !isEqual {
-		patch, err := cmp.CreateJSONPatch(rjc, newRjc)
+		patch, err := cmp.CreateJSONPatch(json.RawMessage(req.Object.Raw), newRjc)
 		if err != nil {
 			return nil, errors.Wrapf(err, "cannot create jsonpatch")
 		}
